@@ -623,7 +623,14 @@ func (x *Exec) evalSlice(s *State, n *ast.SliceExpr) *Term {
 			a, o, ln := x.seqOf(s, sv)
 			x.wfSliceRule(s, a, o, ln, lo, hi)
 		}
-		return Mk(SliceSort, Field(sv, 0), Arith("+", Field(sv, 1), lo), Arith("-", hi, lo), Arith("-", mx, lo))
+		res := Mk(SliceSort, Field(sv, 0), Arith("+", Field(sv, 1), lo), Arith("-", hi, lo), Arith("-", mx, lo))
+		if st, ok := bt.Underlying().(*types.Slice); ok && x.eng.tm.sortOf(st.Elem()) == SReal && res != sv {
+			if x.sliceParent == nil {
+				x.sliceParent = map[*Term]sliceParentInfo{}
+			}
+			x.sliceParent[res] = sliceParentInfo{sv, lo}
+		}
+		return res
 	case *types.Basic:
 		str := x.eval(s, n.X)
 		lo := IntLit(0)
